@@ -28,9 +28,11 @@ LEVEL_TEXT = ('static analysis: (D1) each filter body is interpreted, through it
               'onto the wrong rows); on one-row tables nothing merges and ampdel still keeps only cn = 0 or cn >= 5. D2 includes neighbours that '
               'both lack allelic copy numbers (cn1 = cn2 missing): they share their level; a missing level next to a known one is left '
               'unspecified. D6 includes method `none` (a called table filtered again: the cn-based filters still run), D2 tables left without '
-              'rows. (CLI) the `call` command line(s), through a model of argparse built from the declarations in commands.py and the real _cmd_ '
-              'body interpreted with readers, library step and writers stubbed: every --filter, in the order given, reaches do_call. Decides the '
-              'run-length grouping on that scope only (longer tables follow the same cumulative-key construction; no induction is attempted).')
+              'rows. D2 has levels that differ by less than one (5, 5.5, 6; a ladder of quarters): every change of level starts a new run. D5 '
+              'runs every filter on an empty table. (CLI) the `call` command line(s), through a model of argparse built from the declarations in '
+              'commands.py and the real _cmd_ body interpreted with readers, library step and writers stubbed: every --filter, in the order '
+              'given, reaches do_call. Decides the run-length grouping on that scope only (longer tables follow the same cumulative-key '
+              'construction; no induction is attempted).')
 TECHNIQUE = ('abstract interpretation of the filter bodies over order positions; bounded exhaustive interpretation of the grouping on literal '
              'tables; closed forms on symbolic groups; dominance; index-label alignment hazard on literal tables')
 
